@@ -142,7 +142,12 @@ def make_domain(rng, n, kind):
     return X, desc
 
 
+FORCE_TINY = [False]     # set by a caller for a few cases: the whole exponent matrix at scale 2^-45
+
+
 def gen_alpha(rng, m, n, nonneg=False):
+    if FORCE_TINY[0]:
+        nonneg = False
     rows = []
     tries = 0
     while len(rows) < m:
@@ -155,9 +160,9 @@ def gen_alpha(rng, m, n, nonneg=False):
             rows.append(r)
     if nonneg and [Fraction(0)] * n not in rows:
         rows[rng.randrange(m)] = [Fraction(0)] * n
-    if not nonneg and rng.random() < 0.1:
+    if not nonneg and (FORCE_TINY[0] or rng.random() < 0.1):
         # the whole matrix at scale 2^-30: differences of exponents far below 1e-8 are differences
-        sc = Fraction(1, 2 ** rng.choice([30, 30, 45]))       # 2^-45 ~ 2.8e-14: no absolute threshold separates data from round-off
+        sc = Fraction(1, 2 ** (45 if FORCE_TINY[0] else rng.choice([30, 30, 45])))       # 2^-45 ~ 2.8e-14: no absolute threshold separates data from round-off
         rows = [[v * sc for v in r] for r in rows]
     if nonneg == 'almost':
         # nonnegative with a zero row, except for ONE negative entry: the orthogonality-based cover reduction must not fire
